@@ -33,6 +33,9 @@ def run(ctx):
         for lim in (0, 1, 2):
             runs.append(("exh", "thread", lim, 3, 3))
         runs.append(("exh", "process", 1, 3, 3))
+    # large key alphabet (hash-table growth / collisions): 300 names, judged with the *_big cfgs
+    runs.append(("rand", "thread", 0, 300, 2500 if q else 20000, 1))
+    runs.append(("rand", "process", 0, 300, 2500 if q else 20000, 1))
     n = 0
     for spec in runs:
         n += 1
@@ -47,14 +50,15 @@ def run(ctx):
             ctx.seen(ln.split('"sk"')[0][:60])
         if n <= 3:
             ctx.sample({"driver": list(spec), "first_events": [x.strip() for x in lines[:6]]})
-        rej = ctx.validate("Cache/CacheTrace07.tla", "CacheTrace07.cfg", t)
+        big = spec[3] > 16
+        rej = ctx.validate("Cache/CacheTrace07.tla", "CacheTrace07_big.cfg" if big else "CacheTrace07.cfg", t)
         if n == 1 and not rej:
             ctx.binding_selftest("Cache/CacheTrace07.tla", "CacheTrace07.cfg", t, [("wrong-value", mut_value), ("drop-rise", mut_drop("Rise")), ("drop-store", mut_drop_store)])
         for x in rej:
             ctx.violation("trace07:%s" % sig(x), "cache trace not a behaviour of Cache (C07) at %s" % x["event"][:160], x["path"])
         if spec[2] == 0 and not rej:
             # unlimited cache: the strict layer must agree too (LiveIsFound: hit whenever live)
-            rej = ctx.validate("Cache/CacheTrace.tla", "CacheTrace.cfg", t)
+            rej = ctx.validate("Cache/CacheTrace.tla", "CacheTrace_big.cfg" if big else "CacheTrace.cfg", t)
             for x in rej:
                 if '"Fetch"' in x["event"]:
                     ctx.violation("trace07s:%s" % sig(x), "unlimited cache: fetch differs from specification at %s" % x["event"][:160], x["path"])
